@@ -853,7 +853,15 @@ func (s *Script) appendOp(o *op, left, right any) (pb *precBuf) {
 		pb.buf = append(pb.buf, ' ')
 		pb.buf = append(pb.buf, o.name...)
 		pb.buf = append(pb.buf, ' ')
-		pb.buf = s.appendValue(pb.buf, right, o.prec)
+		if rb, ok := right.(*precBuf); ok && rb.prec == o.prec {
+			// Equal precedence operators are grouped from the left when parsed so
+			// a right side of the same precedence must keep its parentheses.
+			pb.buf = append(pb.buf, '(')
+			pb.buf = append(pb.buf, rb.buf...)
+			pb.buf = append(pb.buf, ')')
+		} else {
+			pb.buf = s.appendValue(pb.buf, right, o.prec)
+		}
 	}
 	return
 }
